@@ -368,6 +368,8 @@ class AEval:
                 env[tgt.a[0]] = v
         elif tgt.k == 'field':
             o = self.ev(tgt.a[0], env, depth)
+            if isinstance(o, Ref):
+                o = o.get()
             if not isinstance(o, AObj):
                 raise AnalysisError('abstract evaluation: attribute store on %r at %s' % (o, tgt.loc))
             if self.typed and getattr(o, 'ftypes', None):
@@ -474,6 +476,11 @@ class AEval:
                 return v
             if a[0] in ('True', 'False', 'None'):
                 return {'True': True, 'False': False, 'None': None}[a[0]]
+            if hasattr(self.module, 'const_node'):
+                cn = self.module.const_node(a[0])
+                if cn is not None:
+                    from .py import PyLowerer
+                    return self.ev(PyLowerer(cn[0]).expr(cn[1]), {}, depth)      # module-level constant (own or imported)
             lib = getattr(self.module, 'lib', None)
             if lib is not None:
                 v = lib.global_value(a[0])
@@ -490,6 +497,8 @@ class AEval:
             return env['self']
         if k == 'field':
             o = self.ev(a[0], env, depth)
+            if isinstance(o, Ref):
+                o = o.get()          # p->f with p a pointer to an element of an array
             if isinstance(o, AObj):
                 if a[1] not in o.attrs:
                     raise AnalysisError('abstract evaluation: attribute %s of %s is not part of the abstraction (%s)' % (a[1], o.oid, e.loc))
@@ -544,6 +553,8 @@ class AEval:
                 return Ref(self.ev(t.a[0], env, depth), self.ev(t.a[1], env, depth))
             if t.k == 'field':
                 o = self.ev(t.a[0], env, depth)
+                if isinstance(o, Ref):
+                    o = o.get()
                 if isinstance(o, AObj):
                     return Ref(o.attrs, t.a[1])
             if t.k == 'var' and t.a[0] in env:
@@ -601,11 +612,50 @@ class AEval:
             return self.call(e, env, depth)
         if k == 'fstr':
             return ''.join(str(self.ev(x, env, depth)) for x in a[0])
+        if k == 'comp':
+            kind, elt, gens = a
+            out = []
+
+            def rec(i, env2):
+                if i == len(gens):
+                    if elt.k == 'kv':
+                        out.append((self.ev(elt.a[0], env2, depth), self.ev(elt.a[1], env2, depth)))
+                    else:
+                        out.append(self.ev(elt, env2, depth))
+                    return
+                g = gens[i]
+                seq = self.ev(g.a[1], env2, depth)
+                if isinstance(seq, dict):
+                    seq = list(seq.keys())
+                for item in list(seq):
+                    self.store(g.a[0], item, env2, depth)
+                    if all(self.truth(self.ev(c, env2, depth)) for c in g.a[2]):
+                        rec(i + 1, env2)
+            rec(0, dict(env))        # the targets of a comprehension are local to it
+            if kind == 'DictComp':
+                return dict(out)
+            if kind == 'SetComp':
+                return set(out)
+            return out
         raise AnalysisError('abstract evaluation: expression kind %s at %s' % (k, e.loc))
 
     def call(self, e, env, depth):
         name, recv_e, args_e = e.a
         short = name.split('.')[-1]
+        if name == 'del' and recv_e is None and not self.typed:
+            for t in args_e:
+                if t.k == 'index':
+                    del self.ev(t.a[0], env, depth)[self.ev(t.a[1], env, depth)]
+                elif t.k == 'var' and t.a[0] in env:
+                    del env[t.a[0]]
+                else:
+                    raise AnalysisError('abstract evaluation: del %s at %s' % (show(t), e.loc))
+            return None
+        if not self.typed and recv_e is None:
+            if name in ('TypedDict', 'NamedTuple', 'TypeVar', 'NewType'):
+                return None          # a typing declaration inside a function: no run-time content
+            if name == 'cast' and len(args_e) == 2:
+                return self.ev(args_e[1], env, depth)
         if name in self.intr or short in self.intr:
             fn = self.intr.get(name) or self.intr[short]
             recv = self.ev(recv_e, env, depth) if recv_e is not None else None
@@ -616,6 +666,8 @@ class AEval:
             return fn(self, recv, args)
         if recv_e is not None:
             recv = self.ev(recv_e, env, depth)
+            if self.typed and isinstance(recv, Ref):
+                recv = recv.get()        # p->m() with p a pointer to an element of an array
             if self.typed and isinstance(recv, AObj) and self.module is not None and hasattr(self.module, 'select'):
                 # C++ member function: overload by arity and by the integer types of the reference arguments
                 at = []
@@ -635,7 +687,24 @@ class AEval:
                     return None
                 if short == 'copy':
                     return list(recv)
+                if short == 'insert' and len(args) == 2:
+                    recv.insert(args[0], args[1])
+                    return None
+                if short == 'extend' and len(args) == 1:
+                    recv.extend(args[0])
+                    return None
+                if short == 'pop' and len(args) <= 1:
+                    return recv.pop(*args)
             if isinstance(recv, dict):
+                if short == 'copy':
+                    return dict(recv)
+                if short == 'setdefault' and len(args) == 2:
+                    return recv.setdefault(args[0], args[1])
+                if short == 'pop' and 1 <= len(args) <= 2:
+                    return recv.pop(*args)
+                if short == 'update' and len(args) == 1 and isinstance(args[0], dict):
+                    recv.update(args[0])
+                    return None
                 if short == 'get':
                     return recv.get(args[0], args[1] if len(args) > 1 else None)
                 if short == 'items':
@@ -672,8 +741,28 @@ class AEval:
             return len(args[0])
         if name == 'range':
             return list(range(*args))
-        if name == 'iter':
+        if name == 'iter' and len(args) == 1:
             return args[0]
+        if name in ('min', 'max') and args and not self.typed:
+            f = min if name == 'min' else max
+            return f(args[0]) if len(args) == 1 else f(args)
+        if name in ('sorted', 'list') and len(args) == 1 and not self.typed:
+            x = list(args[0].keys()) if isinstance(args[0], dict) else list(args[0])
+            return sorted(x) if name == 'sorted' else x
+        if name == 'tuple' and len(args) == 1 and not self.typed:
+            return tuple(args[0])
+        if name in ('any', 'all', 'sum') and len(args) == 1 and not self.typed:
+            if name == 'sum':
+                return sum(args[0])
+            return (any if name == 'any' else all)(self.truth(x) for x in args[0])
+        if name == 'enumerate' and len(args) == 1 and not self.typed:
+            return [(i, x) for i, x in enumerate(args[0])]
+        if name == 'zip' and not self.typed:
+            return [tuple(t) for t in zip(*args)]
+        if name == 'reversed' and len(args) == 1 and not self.typed:
+            return list(reversed(args[0]))
+        if name in ('abs', 'int', 'str', 'bool') and len(args) == 1 and not self.typed:
+            return {'abs': abs, 'int': int, 'str': str, 'bool': bool}[name](args[0])
         if name == 'cast':
             return args[1]
         if name == 'setattr' and isinstance(args[0], AObj):
